@@ -196,12 +196,15 @@ def shaper_kwargs(case, graph_kwargs=None):
     if cfg["mode"] in ("all", "mixed"):
         kw["all_classes_mode"] = True
     if cfg["mode"] == "classes":
+        # case["targetsTwice"]: classes the user names a second time, spelled differently (the set of targets is the same set)
+        other = "bracket" if cfg["spelling"] != "bracket" else "full"
+        named = [spell(c, cfg) for c in cfg["targets"]] + [spell(c, cfg, other) for c in case.get("targetsTwice", []) if c in cfg["targets"]]
         if case.get("targetsPath"):       # the classes listed in a file (file_target_classes), one per line
             with open(case["targetsPath"], "w", encoding="utf8") as fh:
-                fh.write("".join(spell(c, cfg) + "\n" for c in cfg["targets"]))
+                fh.write("".join(c + "\n" for c in named))
             kw["file_target_classes"] = case["targetsPath"]
         else:
-            kw["target_classes"] = [spell(c, cfg) for c in cfg["targets"]]
+            kw["target_classes"] = named
     if cfg["mode"] in ("shapemap", "mixed"):
         kw["shape_map_raw"] = shape_map_text(cfg)
         kw["shape_map_format"] = C.JSON if cfg["smSyntax"] == "json" else C.FIXED_SHAPE_MAP
